@@ -50,6 +50,14 @@ def _regions(tier):
         lambda k: large if k == 0 else usual)
 
 
+def _exact_rectangle(rs):
+    if rs.get('angle') is not None and float(rs['angle'][0]) != 0.0:
+        return False
+    vals = list(rs['center']) + [rs['width'], rs['height']]
+    return all(abs(float(v)) < 2 ** 20 and (float(v) * 8).is_integer()
+               for v in vals)
+
+
 def sample_reference(rs, bbox, n, rows):
     """lo/hi sample counts per pixel for rows [r0, r1) of the mask."""
     ixmin, ixmax, iymin, iymax = bbox
@@ -148,6 +156,23 @@ class Masks(Relation):
                       f'{mb} vs {bb}')
             ctx.check(np.all(np.isfinite(data)),
                       f'{tag} | non-finite mask value')
+            if (mode == 'center' and cls == 'RectanglePixelRegion'
+                    and _exact_rectangle(rs)):
+                # an axis-parallel rectangle with dyadic parameters: every
+                # number involved is exact, so the mask equals the library's
+                # own membership at EVERY pixel centre - also where a centre
+                # lies exactly on an edge (strictly outside)
+                from regions import PixCoord
+                gy, gx = np.mgrid[box[2]:box[3], box[0]:box[1]]
+                inc = bool((rs.get('meta') or {}).get('include', True))
+                member = np.asarray(reg.contains(PixCoord(gx, gy)))
+                if not inc:
+                    member = ~member
+                ctx.check(np.array_equal(data != 0, member),
+                          f'{tag} | exact geometry: centre mask differs from '
+                          'contains() at the pixel centres',
+                          f'{int(((data != 0) != member).sum())} pixels')
+                ctx.count('exact_rectangles')
             if mode == 'center':
                 center_data = data
                 ctx.check(np.all((data == 0) | (data == 1)),
